@@ -4,5 +4,5 @@ from pyvc.dsl import sorts
 sorts(
     percent_fields="float", number_fields="int",
     _overflow="bool", _literals="set", MAX_LITERALS="int", MAX_STRING_LENGTH="int",
-    _models_cmp="tuple", types="list", replaces="set",
+    _models_cmp="tuple", **{"_models_cmp[]": "obj:ModelCmp"}, types="list", replaces="set",
 )
